@@ -387,14 +387,16 @@ class WBEMSubscriptionManager:
         # Get the hostname of the client system to be part of destination Name
         this_client = getfqdn()
 
+        # The subscription manager ID is matched literally
+        submgr_id = re.escape(self._subscription_manager_id)
+
         # Recover owned destination, filter, and subscription instances
         # that exist on the WBEMServer
         dest_name_pattern = re.compile(
-            _format(r'^pywbemdestination:{0}:[^:]*$',
-                    self._subscription_manager_id))
+            _format(r'^pywbemdestination:{0}:[^:]*$', submgr_id))
         dest_name_old_pattern = re.compile(
             _format(r'^pywbemdestination:owned:{0}:{1}:[^:]*$',
-                    this_client, self._subscription_manager_id))
+                    this_client, submgr_id))
 
         dest_insts = server.conn.EnumerateInstances(
             DESTINATION_CLASSNAME, namespace=interop_ns)
@@ -412,11 +414,10 @@ class WBEMSubscriptionManager:
                     OldNameDestinationWarning, 2)
 
         filter_name_pattern = re.compile(
-            _format(r'^pywbemfilter:{0}:[^:]*$',
-                    self._subscription_manager_id))
+            _format(r'^pywbemfilter:{0}:[^:]*$', submgr_id))
         filter_name_old_pattern = re.compile(  # before pywbem 1.3
             _format(r'^pywbemfilter:owned:{0}:{1}:[^:]*:[^:]*$',
-                    this_client, self._subscription_manager_id))
+                    this_client, submgr_id))
 
         filter_insts = server.conn.EnumerateInstances(
             FILTER_CLASSNAME, namespace=interop_ns)
